@@ -7,6 +7,7 @@ model = {"name": str (unique), "func": dotted name, "enabled": True | False | No
 
 from __future__ import annotations
 
+import json as _json
 import random as _random  # only used with an explicit seed taken from the case (deterministic)
 
 from hypothesis import strategies as st
@@ -103,18 +104,25 @@ def pipeline_yaml_dict(spec: dict) -> dict:
     """The ``pipeline:`` mapping with group keys and model keys in a case-determined permutation."""
     rnd = _random.Random(spec.get("yaml_perm", 0))
     out = {}
+    seen_entries = {}
     for g, models in spec["groups"].items():
         if models is None:
             out[g] = None
             continue
         lst = []
         for m in models:
+            key = _json.dumps(m, sort_keys=True, default=str)
+            if spec.get("yaml_aliases") and key in seen_entries:
+                lst.append(seen_entries[key])  # the same object again: PyYAML writes it as an anchor (&id001) and an alias (*id001)
+                continue
             md = {"name": m["name"], "func": m["func"]}
             if m.get("enabled") is not None:
                 md["enabled"] = m["enabled"]
             if m.get("arguments") is not None:
                 md["arguments"] = _shuffled(m["arguments"], rnd)
-            lst.append(_shuffled(md, rnd))
+            md = _shuffled(md, rnd)
+            seen_entries[key] = md
+            lst.append(md)
         out[g] = lst
     return _shuffled(out, rnd)
 
